@@ -220,7 +220,78 @@ def restore(snapshot):
         c05_shim.resume()
 
 
-if spec.get("threads"):
+if spec.get("hashrace"):
+    # Two THREADS of one process call the same cached function with different arguments; a pre-emption is forced
+    # at a chosen LINE of joblib/hashing.py (sys.monitoring, no change to the repo): thread 0 runs `switch` lines of
+    # the hashing code, then thread 1 runs its whole call, then thread 0 continues.
+    import types
+    hr = spec["hashrace"]
+    mem = Memory(LOC, verbose=0)
+    cfh = mem.cache(vmod.f)
+    mon = sys.monitoring
+    TOOL = 3
+    mon.use_tool_id(TOOL, "verif-c11")
+    who = threading.local()
+    cv = threading.Condition()
+    st = {"turn": 0, "count": 0, "switched": False, "done": [False, False], "events": [0, 0]}
+
+    def gate(code, line):
+        i = getattr(who, "i", None)
+        if i is None:
+            return
+        with cv:
+            st["events"][i] += 1
+            if i == 0 and not st["switched"]:
+                if st["count"] >= hr["switch"] and not st["done"][1]:
+                    st["switched"] = True
+                    st["turn"] = 1
+                    cv.notify_all()
+                st["count"] += 1
+            deadline = 60
+            while st["turn"] != i and not st["done"][1 - i]:
+                if not cv.wait(timeout=deadline):
+                    break
+
+    mon.register_callback(TOOL, mon.events.LINE, gate)
+    codes = []
+    for obj in vars(hashing).values():
+        if isinstance(obj, types.FunctionType) and obj.__module__ == hashing.__name__:
+            codes.append(obj.__code__)
+        elif isinstance(obj, type) and obj.__module__ == hashing.__name__:
+            codes += [m.__code__ for m in vars(obj).values() if isinstance(m, types.FunctionType)]
+    for c in codes:
+        mon.set_local_events(TOOL, c, mon.events.LINE)
+    outs = [None, None]
+
+    def racer(i, k):
+        who.i = i
+        try:
+            outs[i] = {"ok": cfh(k)}
+        except Exception as e:
+            outs[i] = {"raise": type(e).__name__, "msg": str(e)[:200]}
+        with cv:
+            st["done"][i] = True
+            st["turn"] = 1 - i
+            cv.notify_all()
+
+    ths = [threading.Thread(target=racer, args=(i, k)) for i, k in enumerate(hr["keys"])]
+    for th in ths:
+        th.start()
+    for th in ths:
+        th.join(120)
+    for c in codes:
+        mon.set_local_events(TOOL, c, 0)
+    mon.free_tool_id(TOOL)
+    again = []
+    for k in hr["keys"]:
+        try:
+            again.append({"ok": cfh(k)})
+        except Exception as e:
+            again.append({"raise": type(e).__name__, "msg": str(e)[:200]})
+    sys.stdout.write(json.dumps({"race": outs, "again": again, "events": st["events"], "switched": st["switched"],
+                                 "state": dump_state(), "pid": os.getpid()}) + "\n")
+    sys.stdout.flush()
+elif spec.get("threads"):
     # several participants in ONE process: one thread each, each with its own scheduler channel
     outs = [None] * len(spec["threads"])
 
